@@ -1,4 +1,5 @@
 """C12 — connections are admitted only for authenticated, expected, unique peers."""
+from . import common
 from engine import query as Q
 from engine.terms import show, subterms
 from engine.guards import Atom, Walker, field_path, chain, Inliner
@@ -52,9 +53,9 @@ def rule_handshake_tables(ctx):
         def m_peer(a, b):
             ra, na = chain(a)
             rb, nb = chain(b)
-            if na[-2:] == ["session_id", "key"] and rb[0] in ("upvar", "param") and rb[-1] == "peer":
+            if na[-2:] == ["session_id", "key"] and common.is_p(rb, common.pnames(f, "PublicKey")):
                 return 1
-            if nb[-2:] == ["session_id", "key"] and ra[0] in ("upvar", "param") and ra[-1] == "peer":
+            if nb[-2:] == ["session_id", "key"] and common.is_p(ra, common.pnames(f, "PublicKey")):
                 return -1
             return 0
 
@@ -80,7 +81,7 @@ def rule_handshake_tables(ctx):
                "the signed session id is not derived from this stream's id: %s" % [show(a[1])[:80] for a in signs], f.loc())
         # the stream whose id is used is the function's stream parameter
         ids = [T.args_of(c)[0] for c in T.calls() if c["q"].endswith("noise::stream::Stream::id")]
-        okp = bool(ids) and all(x[0] in ("upvar", "param") and x[-1] == "stream" for x in ids)
+        okp = bool(ids) and all(common.is_p(x, common.pnames(f, "noise::stream::Stream")) for x in ids)
         ctx.ob("C12.2", "%s/%s stream" % (net, d), okp, "stream.id() is taken from the stream the handshake runs on" if okp else "stream.id() receiver: %s" % [show(x) for x in ids], f.loc())
         # C12.3 identity = verified key
         ver = [T.args_of(c)[0] for c in T.calls() if c["q"].endswith("Signed::verify")]
